@@ -507,6 +507,11 @@ namespace occa {
       if (prevOpType & operatorType::pairStart) {
         return true;
       }
+      // A closing ), ] or } ends the operand just like the last token does:
+      //   (a++), a[i--], f(a, b++)
+      if (state.nextToken->getOpType() & operatorType::pairEnd) {
+        return false;
+      }
 
       // Test for left unary first
       const bool prevTokenIsOp = prevOpType & (operatorType::unary |
